@@ -15,7 +15,7 @@ var addrs = []string{"tcp://10.0.0.1:2000", "tls://10.0.0.2:7770", "local://127.
 var descs = []string{"a conode", "", "Nikkolasg's server: spreading the love of singing", "quote \" backslash \\ done",
 	"unicode: é 名前 ✓", "line\nbreak", "# not a comment", "Description of your server"}
 
-var urls = []string{"https://conode.example.org/path", "http://10.0.0.1:7771", "", "https://[::1]:2003"}
+var urls = []string{"https://conode.example.org/path", "http://10.0.0.1:7771", "", "https://[::1]:2003", "https://Conode.Example.ORG/Path?Q=1"}
 
 var svcNames = []string{"Skipchain", "ByzCoin", "Calypso", "a", "b", "c", "svc-1", "svc_2", "Zeta", "alpha", "Alpha", "10",
 	"with.dot", "with space", "ünï"}
@@ -87,15 +87,48 @@ func unifyRegistry(in *input, rng *rand.Rand, used map[int]bool) {
 	}
 }
 
+// the Coq side tries every combination of visiting orders of the Services maps:
+// keep the product of the factorials small by dropping entries of the last servers
+func capOrders(in *input, max int) {
+	fact := func(n int) int {
+		f := 1
+		for i := 2; i <= n; i++ {
+			f *= i
+		}
+		return f
+	}
+	for {
+		p := 1
+		for _, s := range in.Servers {
+			p *= fact(len(s.Services))
+		}
+		if p <= max {
+			return
+		}
+		// shorten the longest list that is not the first server's, else the first's
+		best := -1
+		for i := len(in.Servers) - 1; i >= 1; i-- {
+			if len(in.Servers[i].Services) >= 2 && (best < 0 || len(in.Servers[i].Services) > len(in.Servers[best].Services)) {
+				best = i
+			}
+		}
+		if best < 0 {
+			best = 0
+		}
+		sv := in.Servers[best].Services
+		in.Servers[best].Services = sv[:len(sv)-1]
+	}
+}
+
 func generate(rng *rand.Rand, tier string) []interface{} {
 	quick := tier == "quick"
 	var ins []interface{}
 	add := func(in input) {
 		ins = append(ins, in)
 	}
-	rounds := 6
+	rounds := 14
 	if !quick {
-		rounds = 60
+		rounds = 240
 	}
 	for r := 0; r < rounds; r++ {
 		for _, kind := range []string{"group", "private"} {
@@ -122,6 +155,7 @@ func generate(rng *rand.Rand, tier string) []interface{} {
 				if mutate != nil {
 					mutate(&in, used)
 				}
+				capOrders(&in, 150)
 				add(in)
 			}
 			mk("no-service", func() int { return 0 }, nil)
